@@ -257,6 +257,12 @@ def configs(tier, seed):
                                             "ns": "numpy", "dtype": None, "mcmc_opts": mo}))
         out.append(("run_populations", {"sampler": "emcee", "N": 8, "opts": {}, "cadence": 2, "n_final": None, "precond": precond, "seed": 0,
                                         "ns": "numpy", "dtype": None, "mcmc_opts": {"discard": 1}}))
+    # a likelihood that is exactly zero (-inf) on a part of the support (fixed schedules: an adaptive step on such a population is C06's known finding)
+    for sampler in ("importance", "emcee", "minipcn", "smc", "emcee_smc"):
+        for sd in (0, 1, 2):
+            out.append(("run_populations", {"sampler": sampler, "N": 8, "opts": {"adaptive": False, "n_steps": 3} if sampler in ("smc", "emcee_smc") else {},
+                                            "cadence": 2, "n_final": 12 if sampler in ("smc", "emcee_smc") else None, "precond": "cut", "seed": sd,
+                                            "ns": "numpy", "dtype": None}))
     # runs inside Aspire.enable_pool: the user's callables evaluate row by row through the map function they are handed
     for sampler in ("importance", "emcee", "minipcn", "smc", "emcee_smc"):
         for pool in (True, "prior"):
